@@ -164,6 +164,39 @@ func constLiteral(p *pkg, name string) string {
 	return "<not found>"
 }
 
+// joinCalls lists the `errors.Join(...)` calls of fd in source order; with onlyInLoops, only those
+// that sit inside a for / range statement (joining one by one nests the joined errors).
+func joinCalls(fd *ast.FuncDecl, onlyInLoops bool) []string {
+	if fd == nil {
+		return []string{"<function not found>"}
+	}
+	var out []string
+	var visit func(n ast.Node, inLoop bool)
+	visit = func(n ast.Node, inLoop bool) {
+		ast.Inspect(n, func(m ast.Node) bool {
+			switch t := m.(type) {
+			case *ast.ForStmt:
+				if m != n {
+					visit(t.Body, true)
+					return false
+				}
+			case *ast.RangeStmt:
+				if m != n {
+					visit(t.Body, true)
+					return false
+				}
+			case *ast.CallExpr:
+				if types.ExprString(t.Fun) == "errors.Join" && (inLoop || !onlyInLoops) {
+					out = append(out, types.ExprString(t))
+				}
+			}
+			return true
+		})
+	}
+	visit(fd.Body, false)
+	return out
+}
+
 func init() {
 	register(func() {
 		// ---- mtls lock discipline
@@ -186,6 +219,12 @@ func init() {
 		// ---- C19: nesting-depth limit of timestamped stream values at decode
 		llo := load("llo", false) // untyped: the constant is a plain literal
 		addNat("llo_maxTimestampedStreamValueNesting", constLiteral(llo, "maxTimestampedStreamValueNesting"), "llo/stream_value.go", "C19")
+		// K6: errors must be joined once, not one by one inside the loop
+		vcd := llo.funcDecl("", "VerifyChannelDefinitions")
+		addStrs("llo_VerifyChannelDefinitions_joins", joinCalls(vcd, false), "llo/channel_definitions.go VerifyChannelDefinitions", "C19")
+		addStrs("llo_VerifyChannelDefinitions_joins_in_loops", joinCalls(vcd, true), "llo/channel_definitions.go VerifyChannelDefinitions", "C19")
+		evmp := load("llo/reportcodecs/evm", false)
+		addStrs("evm_buildPayload_joins_in_loops", joinCalls(evmp.funcDecl("", "buildPayload"), true), "llo/reportcodecs/evm/report_codec_evm_abi_encode_unpacked.go buildPayload", "C19")
 		addStrs("llo_TSV_unmarshalBinary_cmps", llo.comparisons(llo.funcDecl("TimestampedStreamValue", "unmarshalBinary"), "LLOStreamValue_TimestampedStreamValue"), "llo/stream_value.go TimestampedStreamValue.unmarshalBinary", "C19")
 	})
 }
